@@ -1,6 +1,6 @@
 """Property -> rules mapping, level texts, assumptions."""
 from . import entries
-from .rules import canon, facade, flag, limbs, structural, table, total_rule, unimpl
+from .rules import canon, facade, flag, floatrule, limbs, structural, table, total_rule, unimpl
 
 COMMON_ASSUMPTIONS = [
     "rustc's type checker, trait resolution, MIR construction and constant evaluation are correct "
@@ -112,6 +112,10 @@ def rules_C20(ctx):
     return merge_same_rule(reps) + total_for("C20", ctx, own_only=True)
 
 
+def rules_C18(ctx):
+    return total_for("C18", ctx) + [floatrule.run(ctx)]
+
+
 def rules_total_only(pid, own_only=False):
     def f(ctx):
         return total_for(pid, ctx, own_only)
@@ -178,7 +182,7 @@ PROPS = {
              "(R-TOTAL)", "that the returned value is the one the input denotes; termination",
              rules_total_only("C17"), ["that the returned value is the one the input denotes", "termination"]),
     "C18": P("C18", "float<->Uint conversions reach no undischarged panic site (R-TOTAL)",
-             "rounding, neighbour and monotonicity claims", rules_total_only("C18"),
+             "rounding, neighbour and monotonicity claims", rules_C18,
              ["rounding direction", "neighbour/monotonicity of Uint->float"]),
     "C20": P("C20", "no facade function (Bits wrapper, num-traits, num-integer, subtle, zeroize) contains a panic "
              "source of its own beyond the reviewed rows where its signature cannot express the failure (R-TOTAL, "
